@@ -44,6 +44,7 @@ type PKI struct {
 	ClientExpired       gmtls.Certificate
 	ClientServerEKU     gmtls.Certificate // serverAuth only
 	OtherKey            *sm2.PrivateKey
+	Attacker            gmtls.Certificate // self-signed certificate of OtherKey (subject "attacker")
 	SignUntrusted       gmtls.Certificate // sign cert under CA2
 	EncUntrusted        gmtls.Certificate
 	SignExpired         gmtls.Certificate
@@ -146,6 +147,11 @@ func Get() *PKI {
 			t.KeyUsage = gx509.KeyUsageDigitalSignature
 			t.ExtKeyUsage = []gx509.ExtKeyUsage{gx509.ExtKeyUsageClientAuth}
 		}
+		p.Attacker = mk(sm2Cert("attacker", 40, &p.OtherKey.PublicKey, nil, p.OtherKey, func(t *gx509.Certificate) {
+			cliT(t)
+			t.ExtKeyUsage = []gx509.ExtKeyUsage{gx509.ExtKeyUsageClientAuth, gx509.ExtKeyUsageServerAuth}
+			t.DNSNames = []string{ServerName}
+		}), p.OtherKey)
 		p.Client = mk(sm2Cert("client", 30, &p.ClientKey.PublicKey, p.CA, p.CAKey, cliT), p.ClientKey)
 		p.ClientUntrusted = mk(sm2Cert("client", 31, &p.ClientKey.PublicKey, p.CA2, p.CA2Key, cliT), p.ClientKey)
 		p.ClientExpired = mk(sm2Cert("client", 32, &p.ClientKey.PublicKey, p.CA, p.CAKey, func(t *gx509.Certificate) {
